@@ -39,6 +39,10 @@ type Location struct {
 	lastUpdated  string
 	updatedMutex sync.RWMutex
 
+	// addMutex makes "check the capacity, then add" one step, so
+	// that concurrent adds cannot exceed Control.MaxFacts.
+	addMutex sync.Mutex
+
 	// Provider is required when using parent locations.  Must be
 	// set when the Location is created and then left unchanged.
 	//
@@ -168,7 +172,7 @@ func NewLocation(ctx *Context, name string, state State, ctrl *Control) (*Locati
 
 	// ToDo: CacheExpires default duration.
 	// loc := Location{sync.RWMutex{}, name, false, nil, ctrl, state, ServiceStats{}, false}
-	loc := Location{sync.RWMutex{}, name, false, nil, nil, state, 0, ServiceStats{}, false, "", sync.RWMutex{}, nil}
+	loc := Location{sync.RWMutex{}, name, false, nil, nil, state, 0, ServiceStats{}, false, "", sync.RWMutex{}, sync.Mutex{}, nil}
 
 	return &loc, loc.init(ctx)
 }
@@ -327,6 +331,8 @@ func (loc *Location) AddRule(ctx *Context, id string, rule Map) (string, error) 
 	timer := NewTimer(ctx, "AddRule")
 	Inc(&loc.stats.TotalCalls, 1)
 	var err error
+	loc.addMutex.Lock()
+	defer loc.addMutex.Unlock()
 	if loc.AtCapacity(ctx) {
 		max := loc.Control().MaxFacts
 		err = fmt.Errorf("Location state capacity limit reached (%d)", max)
@@ -462,6 +468,8 @@ func (loc *Location) AddFact(ctx *Context, id string, fact Map) (string, error) 
 	if err := loc.CheckWrite(ctx); err != nil {
 		return "", err
 	}
+	loc.addMutex.Lock()
+	defer loc.addMutex.Unlock()
 	if loc.AtCapacity(ctx) {
 		max := loc.Control().MaxFacts
 		err := fmt.Errorf("Location state capacity limit reached (%d)", max)
